@@ -149,6 +149,7 @@ pub fn run(env: &mut Env) -> Outcome {
                 seen.push(events[0].clone());
             }
             ClientMsg::Share { pdu: SharePdu::ConfirmActive(_), .. } | ClientMsg::Share { pdu: SharePdu::Data { pdu: DataPdu::Synchronize { .. }, .. }, .. } | ClientMsg::Share { pdu: SharePdu::Data { pdu: DataPdu::Control { .. }, .. }, .. } | ClientMsg::Share { pdu: SharePdu::Data { pdu: DataPdu::FontList { .. }, .. }, .. } if !reactivation_marks.is_empty() => {}
+            ClientMsg::Share { pdu: SharePdu::Data { pdu, .. }, .. } if pdu.is_unrelated_legal() => {}
             other => return viol("c11/unexpected-client-message", &other.name(), format!("client sent {} while only input was submitted", other.name())),
         }
     }
